@@ -47,6 +47,8 @@ CHECKS = {
             "Bounded: <= 5 solver invocations, 5-status alphabet; 'Confirmed over all paths' per harness with reachability twin.", "CrossHair/z3; k-model stubs validated by injected runs on the real classes", "5/C13"),
     "C14": (MC, "CrossHair symbolic execution of the real get_solution_walks/_reconstruct_eulerian_walk with a symbolic multiplicity per edge of enumerated universe graphs",
             "Bounded: universes <= 4 inner nodes, <= 10 edges, multiplicity <= 3; 'Confirmed over all paths' with reachability twin.", "CrossHair/z3", "5/C14"),
+    "C19": (EX, "CrossHair on each constructor + solve with symbolic k, coverage, edge-weight codes, ignored-edge and corruption selectors; the documented-validity oracle is traced, the library call runs concretely per explored region",
+            "Exploration (symbolic-input bug finding): one fixed DAG / cyclic graph; 'Confirmed over all paths' means every region of the oracle over the stated small domains behaved.", "CrossHair; oracle transcribed from the property and docstrings", "5/C19"),
 }
 
 NOT_YET = {}
